@@ -474,3 +474,65 @@ class moved_fraction_splits_proof:
 
     def domain(tier, rng):
         yield from moved_fraction.domain(tier, rng)
+
+
+# ---------------------------------------------------------------------------
+# SliceSlicesIntegers.transfer_bytes (record abstraction, rank 1): 0 = min <= max
+# ---------------------------------------------------------------------------
+SBASIC = "dask_array/slicing/_basic.py"
+
+
+def _ext_transfer_bytes(ex, st, args, kwargs, node):
+    """TransferBytes(lo, hi): the pair itself"""
+    from pyvc.spec import TupV
+    return TupV(list(args), "tuple")
+
+
+def _ssi_transfer(spec, index_type):
+    @contract(f"{SBASIC}::SliceSlicesIntegers.transfer_bytes", spec=spec, props=["C27"])
+    class ssi_transfer_bytes:
+        """a basic slice moves nothing under min and at most the bytes of the blocks it reads (minus the full-block aliases)
+        under max: the pair is (0, max) with max >= 0 -- from the per-block plan's contract (every key is a block of the
+        input) and non-negative block sizes"""
+        params = {"self": "obj:SSI"}
+        result = "tup:real,real"
+        fields = {"SSI": {"array": "obj:Arr", "index": index_type, "allow_getitem_optimization": "bool"},
+                  "Arr": {"chunks": "tup:seq", "shape": "tup:int", "ndim": "const", "dtype": "obj:DType"},
+                  "DType": {"itemsize": "int"}}
+        consts = {"self.array.ndim": 1}
+        externals = {"TransferBytes": _ext_transfer_bytes}
+
+        def requires(self):
+            from contracts.slicing import norm_bounds
+            from pyvc.spec import SliceV
+            arr = self.get("array")
+            c, n = S.item(arr.get("chunks"), 0), S.item(arr.get("shape"), 0)
+            idx = S.item(self.get("index"), 0)
+            cs = [S.slen(c) >= 1, S.chunking(c, n), arr.get("dtype").get("itemsize") >= 0]
+            if isinstance(idx, SliceV):
+                cs.append(norm_bounds(idx, n))
+            else:
+                cs.append(S.And(0 <= idx, idx < n))
+            return S.And(*cs)
+
+        def facts(self):
+            c = S.item(self.get("array").get("chunks"), 0)
+            return [("mono_prefix", c), ("cum_sorted", c), ("prefix_nonneg", c)]
+
+        def ensures(result, self):
+            from pyvc.spec import NanV
+            lo, hi = result.items
+            if isinstance(lo, NanV) or isinstance(hi, NanV):
+                return {"nan-only-when-unknown": False}  # all sizes are known here: the NaN return must be unreachable
+            return {"0<=min<=max": S.And(lo.t == 0, hi.t >= 0)}
+
+        loops = {
+            "for#2": Loop(invariant=lambda v, v0: {"aliases-among-reads": S.And(0 <= v.alias_ax, v.alias_ax <= v.reads_ax)}),
+        }
+
+    ssi_transfer_bytes.__name__ = "ssi_transfer_bytes_" + spec.replace("-", "_")
+    return ssi_transfer_bytes
+
+
+SSIT1 = _ssi_transfer("r1-slice", "tup:slice")
+SSIT2 = _ssi_transfer("r1-int", "tup:int")
